@@ -74,6 +74,8 @@ class Effect:
     text: str = ""
     fi: Optional[FuncInfo] = None
     orig: Optional[ast.AST] = None
+    pre: Optional[Dict[str, ast.expr]] = None  # loops: env at loop entry
+    pre_facts: Optional[Dict[str, bool]] = None
 
     def __repr__(self) -> str:  # pragma: no cover
         if self.kind == "call":
@@ -509,7 +511,8 @@ class Enumerator:
             if b.exit is None:
                 b.exit = ("fall",)
         iter_text = U(subst(st.iter, p)) if isinstance(st, ast.For) else U(subst(st.test, p))
-        eff = Effect("loop", st, body=body, text=iter_text, fi=fi, value=subst(st.iter, p) if isinstance(st, ast.For) else None)
+        eff = Effect("loop", st, body=body, text=iter_text, fi=fi, value=subst(st.iter, p) if isinstance(st, ast.For) else None,
+                     pre=dict(p.env), pre_facts=dict(p.facts))
         out: List[Path] = []
         after = p.fork()
         after.effects.append(eff)
